@@ -17,6 +17,60 @@ import sys
 import threading
 
 
+_tls = threading.local()
+_TOOL = 3  # sys.monitoring tool id
+_tool_ready = [False]
+
+
+def _ensure_instruction_tool():
+    """INSTRUCTION events (sys.monitoring) on selected code objects are pre-emption points too: a
+    read-modify-write on one source line (``self.total += m``) can then be torn by the scheduler."""
+    if _tool_ready[0]:
+        return
+    mon = sys.monitoring
+    try:
+        mon.use_tool_id(_TOOL, "dsim-sched")
+    except ValueError:
+        pass
+
+    def on_instruction(code, offset):
+        t = getattr(_tls, "task", None)
+        if t is None:
+            return
+        sched = _tls.sched
+        t.steps += 1
+        if t.budget > 0:
+            t.budget -= 1
+            if t.budget == 0:
+                sched.ctrl.release()
+                t.sem.acquire()
+                if sched.aborting:
+                    raise SimAbort()
+
+    mon.register_callback(_TOOL, mon.events.INSTRUCTION, on_instruction)
+    _tool_ready[0] = True
+
+
+def set_instruction_events(codes, on):
+    _ensure_instruction_tool()
+    mon = sys.monitoring
+    for c in codes:
+        mon.set_local_events(_TOOL, c, mon.events.INSTRUCTION if on else 0)
+
+
+def python_methods_of(cls, roots):
+    """Code objects of the plain-Python methods defined (anywhere in the MRO) in files under ``roots``."""
+    out = []
+    for k in cls.__mro__:
+        for v in vars(k).values():
+            f = getattr(v, "__func__", v)
+            f = getattr(f, "__wrapped__", f)
+            code = getattr(f, "__code__", None)
+            if code is not None and code.co_filename.startswith(tuple(roots)):
+                out.append(code)
+    return out
+
+
 class SimAbort(BaseException):
     """Unwinds parked simulated threads when a run is abandoned."""
 
@@ -99,6 +153,8 @@ class Scheduler:
             task.done = True
             return
         gt = self._make_tracers(task)
+        _tls.task = task
+        _tls.sched = self
         sys.settrace(gt)
         try:
             task.result = task.fn()
@@ -108,6 +164,7 @@ class Scheduler:
             task.exc = e
         finally:
             sys.settrace(None)
+            _tls.task = None
             task.done = True
             self.ctrl.release()
 
